@@ -519,6 +519,20 @@ def check(ctx):
     if ok is False:
         ctx.violation('C19.R5', COMP, sp, Model.qual(sp), 'duplicate handling of Specification.types became order-dependent', stmt='duplicates')
 
+    # ---- R7: a constraint written at a reference re-configures the copy of the referenced type (set_size_range / set_restricted_to_range are called again); what the
+    #      constructor derived from the first constraint must be derived again there, or `code Code (SIZE (2))` behaves differently from `code IA5String (SIZE (2))`
+    #      (sa/siblings.py stale_derived_attributes, shared with C05.R13 / C06.R12)
+    ctx.rule('C19.R7', 'no attribute is derived in __init__ alone from a parameter that a set_* method re-configures for a constrained reference')
+    from .. import siblings as _sib19
+    n_ctor19, stale19 = _sib19.stale_derived_attributes(model, ['asn1tools/codecs/%s.py' % c_ for c_ in ('ber', 'der', 'per', 'uper', 'oer', 'jer', 'xer', 'gser')])
+    ctx.instance('C19.R7', '%d constructors hand parameters to a set_* method; attributes derived from those parameters outside the setter: %d' % (n_ctor19, len(stale19)),
+                 'ok' if not stale19 else 'VIOLATION', nontrivial=n_ctor19 > 0)
+    for c_, ini_, a_, attr_, used_, setter_ in stale19:
+        ctx.violation('C19.R7', c_.mod.rel, a_, Model.qual(ini_),
+                      '`%s` is computed from %s in the constructor only; %s(), which the compiler calls on the copy of a referenced type when the reference carries its own constraint, sets '
+                      'the same parameter(s) anew without refreshing self.%s: the constrained reference is encoded differently from the same constraint written inline'
+                      % (norm_stmt(a_), ', '.join(used_), setter_, attr_), stmt='derived attribute not refreshed by %s' % setter_)
+
 
 BER = 'asn1tools/codecs/ber.py'
 MUTANTS = [
